@@ -253,6 +253,37 @@ def scenario_pred(tag, api, pks, ms, sg, want):
     return (not bad, f"'{tag}' ({api}): {bad}")
 
 
+def cancelling_history_pred(a, order):
+    """ONE interpreter: calls on individually valid keys whose sum is the identity (pk, -pk) come first, then the identity key and
+    the identity signature are offered to every entry point — a verdict remembered from the aggregate (a cache seeded with
+    'the sum of validated keys is valid') shows only in this history"""
+    from props.blsutil import enc_g1
+    from py_ecc.bls import G2Basic, G2MessageAugmentation, G2ProofOfPossession as POP
+    m = b"msg"
+    pks = [pk_of(a), pk_of(O.BLS_R - a)]
+    ident, inf = enc_g1(None), enc_g2(None)
+    bad = []
+    try:
+        steps = [lambda: POP.FastAggregateVerify(pks, m, inf), lambda: POP.AggregateVerify(pks, [m, m], inf),
+                 lambda: POP._AggregatePKs(pks), lambda: [POP.KeyValidate(k) for k in pks]]
+        for i in order:
+            steps[i]()
+        for C in (G2Basic, G2MessageAugmentation, POP):
+            if C.KeyValidate(ident) is not False:
+                bad.append(f"{C.__name__}.KeyValidate(identity key) is not False after the history")
+            if C.Verify(ident, m, inf) is not False:
+                bad.append(f"{C.__name__}.Verify(identity key, m, identity signature) is not False after the history")
+            if C.AggregateVerify([ident], [m], inf) is not False:
+                bad.append(f"{C.__name__}.AggregateVerify([identity key]) is not False after the history")
+        if POP.FastAggregateVerify([ident], m, inf) is not False or POP.PopVerify(ident, inf) is not False:
+            bad.append("POP FastAggregateVerify / PopVerify accept the identity key after the history")
+        if POP.FastAggregateVerify(pks, m, inf) is not False:
+            bad.append("FastAggregateVerify accepts keys that sum to the identity on a repeated call")
+    except Exception as e:  # noqa: BLE001
+        bad.append(f"raised {type(e).__name__}: {e}")
+    return (not bad, f"cancelling keys sk={a}, r-sk, history {order}: {bad}")
+
+
 def _canonical_sig(sg):
     try:
         S = O.zcash_decompress_g2(int.from_bytes(sg[:48], "big"), int.from_bytes(sg[48:], "big"))
@@ -268,6 +299,8 @@ def predicates(rng, tier, only=None):
     sk, goodpk, keys = malformed_keys(rng, tier)
     for tag, k in keys:
         ps.append(Pred("keyvalidate-exact", keyvalidate_pred, (tag, k)))
+    for order in ((0,), (1, 0), (3, 2, 0, 1)):
+        ps.append(Pred("cancelling-keys-history", cancelling_history_pred, (rng.randrange(1, O.BLS_R), order)))
     m = b"message"
     for s in SUITES:
         goodsig, sigs = malformed_sigs(rng, s, sk, m, tier)
